@@ -130,7 +130,7 @@ class C09(Prop):
     consts = ("int", "cc")
     packages = {"int": "internal", "cc": "internal/app/connectconformance"}
     kinds = {"c09.raw": "int", "c09.read": "int", "c09.stalls": "int", "c09.dec": "int", "c09.write": "int",
-             "c09.json": "int", "c09.jsonrt": "int"}
+             "c09.json": "int", "c09.jsonrt": "int", "c09.wsink": "int", "c09.pipe": "int", "c09.jsonwrite": "int"}
     rule = ("scripted io.Reader (data, read schedule, error-with-last-data flag, tail = EOF | other error | block for ever) driven through "
             "readDelimitedMessageRaw (c09.raw), ReadDelimitedMessage (c09.read), codec.NewDecoder(..).DecodeNext binary (c09.dec) and JSON "
             "(c09.json, c09.jsonrt) until the first error: ALL compositions into reads of every small stream (<= 12 bytes quick, <= 14 thorough) "
@@ -325,6 +325,39 @@ class C09(Prop):
         for _ in range(2 if quick else 10):
             text = (jtext(rng, jtop(rng), True) + "\n").encode()
             yield ["c09.json", text[:rng.randrange(len(text) + 1)], [1, 2, 3], False, BLOCK]
+
+        # 7. writer side: a writer that fails after `room` bytes (-1: never); encode -> pipe -> decode
+        wl = [[], [b""], [b"\x08\x01"], [b"", b""], [b"\x0a\x01z", b""], [b"\x08\x01", b"\x0a\x02ab", b""], [b"\xff"], [b"a", b"bc"]]
+        for ms in wl:
+            tot = len(stream(ms))
+            for room in range(-1, tot + 2):                     # every failure point
+                yield ["c09.wsink", ms, room]
+        for _ in range(300 if quick else 6000):
+            valid = rng.random() < 0.7
+            ms = [wire_msg(rng, rng.choice(sizes + [300, 70000 if rng.random() < 0.03 else 2])) if valid else
+                  bytes(rng.randrange(256) for _ in range(rng.choice(sizes))) for _ in range(rng.randint(0, 4))]
+            tot = len(stream(ms))
+            room = -1 if rng.random() < 0.3 else rng.choice([rng.randint(0, tot + 1)] + boundaries_of(ms) + [tot])
+            yield ["c09.wsink", ms, room]
+        for ms in wl:
+            if ms in ([b"\xff"], [b"a", b"bc"]):
+                continue                                         # typed writers: wire-format messages only
+            st = stream(ms)
+            for room in range(-1, len(st) + 1):
+                got = len(st) if room < 0 else min(room, len(st))
+                comps = list(compositions(got)) if got <= 7 else [rand_sched(rng, got, boundaries_of(ms)) for _ in range(20)]
+                for comp in comps:
+                    yield ["c09.pipe", rng.randrange(2), 16, ms, room, comp, rng.random() < 0.5]
+        for _ in range(1200 if quick else 40000):
+            ms = [wire_msg(rng, rng.choice(sizes + [rng.randint(0, 600)])) for _ in range(rng.randint(0, 5))]
+            st = stream(ms)
+            room = -1 if rng.random() < 0.5 else rng.choice([rng.randint(0, len(st))] + boundaries_of(ms))
+            got = len(st) if room < 0 else min(room, len(st))
+            yield ["c09.pipe", rng.randrange(2), rng.choice([4096, 1 << 20, 16 << 20, 128, 5]), ms, room,
+                   rand_sched(rng, got, boundaries_of(ms)), rng.random() < 0.5]
+        for _ in range(300 if quick else 6000):
+            vals = [jtext(rng, jtop(rng), False).encode() for _ in range(rng.randint(0, 4))]
+            yield ["c09.jsonwrite", vals, rng.choice([-1, -1, 0, 1, 2])]
 
 
 PROP = C09()
